@@ -127,7 +127,13 @@ func runUpgradeCase(ta *TestApp, seed uint64, idx int, rep *Report, profile stri
 			lo.pools = append(lo.pools, p)
 		}
 		for i := 0; i < rng.Intn(3); i++ {
-			lo.pools = append(lo.pools, mk(fmt.Sprintf("other%d", i), "Validators", rng.LogUniform(15)))
+			nm := fmt.Sprintf("other%d", i)
+			if rng.Chance(25) {
+				// a pool the owner created himself under the name of one of the pools the upgrade is going to add
+				nm = []string{"VC round pool", "Early-bird round pool", "Public round pool", "Strategic reserve short term round pool", "Validator round pool"}[rng.Intn(5)]
+				rep.Count("legacy.owner_pool_named_like_an_upgrade_pool")
+			}
+			lo.pools = append(lo.pools, mk(nm, "Validators", rng.LogUniform(15)))
 		}
 		for i := len(lo.pools) - 1; i > 0; i-- {
 			j := rng.Intn(i + 1)
@@ -397,6 +403,33 @@ func runUpgradeCase(ta *TestApp, seed uint64, idx int, rep *Report, profile stri
 	typesUnchanged := (oldTypeErr == nil) == hasType && newTypeErr != nil
 	rep.Eval("C16.split_all_or_nothing", (applied && typesApplied) || (unchanged && typesUnchanged), idx, 1,
 		fmt.Sprintf("pools applied=%v unchanged=%v; types applied=%v unchanged=%v", applied, unchanged, typesApplied, typesUnchanged))
+	// C17: the upgrade gives the genesis mark to the Advisors pool, the Validators pool and the pools split out of it — to no other
+	// pool of that owner (a pool he created himself keeps whatever mark it had) and to no pool of anybody else
+	{
+		okMark, detail := true, ""
+		for i, p := range ownerPre.VestingPools {
+			if i >= len(ownerPost.VestingPools) || p.Name == "Advisors pool" || p.Name == "Validators pool" {
+				continue
+			}
+			if ownerPost.VestingPools[i].GenesisPool != p.GenesisPool {
+				okMark = false
+				detail = fmt.Sprintf("pool %q of the owner (neither the Advisors nor the Validators pool) has its genesis mark changed from %v to %v", p.Name, p.GenesisPool, ownerPost.VestingPools[i].GenesisPool)
+			}
+		}
+		for _, lo := range owners {
+			if lo.addr == owner {
+				continue
+			}
+			avp, _ := k.GetAccountVestingPools(ctx, lo.addr)
+			for _, p := range avp.VestingPools {
+				if p.GenesisPool {
+					okMark = false
+					detail = fmt.Sprintf("pool %q of %s is marked as a genesis pool", p.Name, lo.addr)
+				}
+			}
+		}
+		rep.Eval("C17.upgrade_marks_only_genesis_pools", okMark, idx, 1, detail)
+	}
 	if applied {
 		rep.Count("split.applied")
 		newTot := sdk.ZeroInt()
